@@ -6,9 +6,14 @@ hail/hail/src/is/hail/stats/LeveneHaldane.scala.
 Tie: T. The arithmetic of those functions (argument validation and derived counts, the chi-squared statistic, the dispatch of
 contingencyTableTest, Fisher's support bounds, the Levene-Haldane recurrences, mode formula, mean and mid-p combinations) is
 re-parsed from the current Scala source text and translated to Gallina over exact rationals (Double -> Q) and 32-bit Ints;
-Stats/Lemmas.v proves the generated definitions equal to the mathematical definitions. The lazy streams, cut-offs and the
-commons-math distribution functions are NOT modelled. The only link to executed engine behaviour is the set of outputs
-recorded in the repository's own doctests and tests, which the exact model must reproduce to 1e-6.
+Stats/Lemmas*.v prove the generated definitions equal to the mathematical definitions. The class methods of LeveneHaldane -
+probability, cumulativeProbability(n0, n1) with its four branches and slice bounds, cumulativeProbability(n1), survivalFunction,
+rightMidP, leftMidP - and the choice of mid-p in hardyWeinbergTest are translated with their callees NOT opaque (a stream is
+"index -> forced element"; slices are exact finite sums); Stats/LemmasCdf.v proves them equal to P(n0 < X <= n1), P(X = x),
+P(X > x), P(X <= x), P(X > x) + P(X = x)/2, P(X <= x) - P(X = x)/2 of the distribution the class instance stands for.
+The round-off cut-offs (takeWhile(_ > ...1e-16)) are IGNORED (identity in the model), exactMidP is a hand model whose Scala text
+is pinned, and the commons-math distribution functions are NOT modelled. The only link to executed engine behaviour is the set
+of outputs recorded in the repository's own doctests and tests, which the exact model must reproduce to 1e-6.
 """
 import ast
 import math
@@ -34,21 +39,41 @@ META = dict(
                '0 <= nA <= n and equal parity for all counts with n < 2^30; every step of the Levene-Haldane streams multiplies by the exact '
                'ratio P(nAB+-2)/P(nAB) of the Levene-Haldane distribution and the right stream vanishes past nA; the mean is nA nB/(2n-1); the '
                'normalised masses sum to one; rightMidP, leftMidP (generated combinations) and exactMidP (hand model) lie in [0,1] for every finite '
-               'distribution; the chi-squared statistic is the textbook N(ad-bc)^2/((a+b)(c+d)(a+c)(b+d)) >= 0 for all tables with positive '
+               'distribution; for every class instance LeveneHaldane(nA, mode, pRU, pLU, pN) satisfying the class invariant lh_state_wf (nA < 2^30) the '
+               'GENERATED methods with their branch structure equal their definitions over the distribution the instance stands for - '
+               'cumulativeProbability(n0, n1) = P(n0 < X <= n1) for all -1 <= n0, n1 <= nA of either parity (all four branches and slice bounds), '
+               'probability(x) = P(X = x) for every Int x, survivalFunction = P(X > n0), cumulativeProbability(n1) = P(X <= n1), '
+               'rightMidP = P(X > x) + P(X = x)/2 (the one-sided p-value), leftMidP = P(X <= x) - P(X = x)/2, both in [0,1] - and hardyWeinbergTest '
+               'returns rightMidP iff one_sided (C37_lh_class_methods, C37_hwe_pvalue_dispatch; sums are exact, the 1e-16 cut-offs are ignored); '
+               'the chi-squared statistic is the textbook N(ad-bc)^2/((a+b)(c+d)(a+c)(b+d)) >= 0 for all tables with positive '
                'margins; contingencyTableTest dispatches on min_cell_count as documented; Fisher\'s support [low, high] contains the observed cell '
                'and is exactly the set of feasible tables (total < 2^31).',
-    level_note='NOT covered: floating-point error, the 1e-16 stream cut-offs and 1e-12 tie tolerance, the mode formula\'s optimality (only searched), '
+    level_note='Proved vs only run: the class-method theorem assumes the class invariant (mode in the support with nA\'s parity, streams start at 1.0, '
+               'are non-negative and reach both ends of the support, pN = their sum - 1); that LeveneHaldane.apply establishes it is NOT proved - it is '
+               'evaluated (lh_state_wf, vm_compute) on every (n, nA) the search visits, together with all class methods against exact Python-fraction '
+               'references at the mode, next to it (both parities) and at the ends of the support, and hardy_weinberg_test one-/two-sided on count triples '
+               'with n_het at and off the mode. exactMidP is NOT translated: the hand model exact_midp is compared with its definition by the search and the '
+               'Scala text of exactMidP is pinned token by token (any edit fails closed without a concrete input). '
+               'NOT covered: floating-point error, the 1e-16 stream cut-offs and 1e-12 tie tolerance, the mode formula\'s optimality (only searched), '
                'pchisqtail / HypergeometricDistribution / uniroot (commons-math and numerical code), Fisher\'s p-value, odds-ratio estimate and confidence '
                'interval, and "within floating-point tolerance" itself. Nothing of the Scala engine can be executed in the sandbox; the only observed '
                'behaviour is the handful of outputs recorded in functions.py doctests and test_expr.py, which the exact model reproduces to 1e-6.',
     partial=True,
 )
 TRUSTED = ['harness/translate/c34_monadic.py + c37_scala_q.py: Scala def-body translator (Int = 32-bit, Double = exact rational, '
-           'division by zero = None) and the regular expressions that cut single vals / one-line methods out of the class body',
+           'division by zero = None; LazyList = index -> forced element, slice = finite list, takeWhile(_ > round-off cut-off) = identity) and the '
+           'regular expressions that cut single vals / method bodies out of the class body',
+           'the pinned text of LeveneHaldane.exactMidP (EXACT_MIDP_PINNED) as the link between that method and the hand model Stats.Pipeline.exact_midp',
            'coq/theories/Stats/Model.v and CallPacking/Model.v: primitive operations']
 ASSUMPTIONS = ['Double arithmetic is replaced by exact rational arithmetic: rounding error, the 1e-16 stream cut-offs, D_== tolerances and the '
                'commons-math distribution functions (pchisqtail, HypergeometricDistribution) are outside the model',
                'nothing of the engine is executed; recorded outputs from the repository doctests/tests are the only observed behaviour']
+
+
+# body of LeveneHaldane.exactMidP with all white space removed (see generate)
+EXACT_MIDP_PINNED = ('valp0U=probability(nAB)*pNif(D_==(p0U,0.0))0.0else{valcutoff=p0U*0.5e-16defmpU(s:LazyList[Double]):Double={val(sEq,sLess)='
+                     's.dropWhile(D_>(_,p0U,tolerance=1.0e-12)).span(D_==(_,p0U,tolerance=1.0e-12))0.5*sEq.sum+sLess.takeWhile(_>cutoff).sum}'
+                     '(mpU(pLU.tail)+mpU(pRU))/pN}')
 
 
 def _rx(pattern, text, what):
@@ -168,6 +193,12 @@ def generate(ctx):
     method('survivalFunction', ['n0'], 'LH_survival')
     method('rightMidP', ['nAB'], 'LH_rightMidP')
     method('leftMidP', ['nAB'], 'LH_leftMidP')
+    # --- exactMidP is NOT translated (dropWhile / span over lazy streams): its text is pinned token by token to the shape the hand
+    #     model Stats.Pipeline.exact_midp was written from, so that any edit breaks the tie (fail closed, without a concrete input)
+    mm = _rx(r'\n  def exactMidP\(nAB: Int\) = \{\n(.*?)\n  \}\n', lh, 'exactMidP')
+    if ''.join(mm.group(1).split()) != EXACT_MIDP_PINNED:
+        raise TieBroken('scala-translator', 'exactMidP: the body differs from the text the hand model exact_midp (half the mass of the equally probable outcomes '
+                        'plus the mass of the strictly less probable ones) was written from; it is not translated - review and re-pin')
     # --- hardyWeinbergTest: which mid-p is returned
     m = _rx(r'val LH = LeveneHaldane\(n, nA\)\s*\n\s*val pVal = ([^\n]+)\n\s*Array\(LH\.getNumericalMean / n, pVal\)', pkg, 'hardyWeinbergTest tail')
     f.externs[('rightMidP', 1)] = ('pv_rightMidP', ['Int'], 'Double')
@@ -577,7 +608,10 @@ def oracle(ctx, budget):
              'histograms': {'class_method_points': at_mode, 'hwe_inputs_with_n_het_at_mode': n_at_mode_hw, 'hwe_inputs': len(hwp),
                            'cdf2_interval_points': sum(len(p) for _, _, p in grid_pts)},
              'rule': 'NO executable implementation exists here (Scala only): generated definitions (vm_compute) vs exact references computed with Python '
-                     'fractions on small-scope + seeded random 2x2 tables, genotype-count triples and (n, nA, nAB) points; non-trivial = distinct inputs'}
+                     'fractions on small-scope + seeded random 2x2 tables, genotype-count triples and (n, nA, nAB) points; the class methods of '
+                     'LeveneHaldane (with the class invariant) on instances (n, nA) at the mode, around it in both parities and at the ends of the support, '
+                     'cumulativeProbability(n0, n1) on interval grids, hardy_weinberg_test one-/two-sided on triples with n_het at and off the mode; '
+                     'non-trivial = distinct inputs'}
     return fails, stats
 
 
